@@ -165,8 +165,17 @@ sc = strip_comments(src("statistical_codec.rs"))
 mis = enum_variants(sc, "CodecMisprediction")
 corr = enum_variants(sc, "CodecCorrection")
 cc = strip_comments(src("cabac_codec.rs"))
-m = need(r"default_encoding: \[CTX; (\d+)\],\s*default_encoding_nbits: \[CTX; (\d+)\],\s*correction: \[\[CTX; (\d+)\]; CodecCorrection::MAX as usize\],\s*correction_bits: \[\[CTX; (\d+)\]; CodecCorrection::MAX as usize\]", cc, "codec context array sizes")
-CTXN = [num(m.group(i)) for i in range(1, 5)] if m else [0] * 4
+# context arrays of PredictionCabacContext, by TYPE and position (field names are free to change):
+# two `[CTX; n]` arrays followed by two `[[CTX; n]; CodecCorrection::MAX as usize]` arrays
+CTXN = [0] * 4
+m = need(r"struct\s+PredictionCabacContext\s*<\s*CTX\s*>\s*\{(.*?)\n\}", cc, "codec context struct")
+if m:
+    flat = [num(x) for x in re.findall(r":\s*\[CTX;\s*(\d+)\]\s*,", m.group(1))]
+    nested = [num(x) for x in re.findall(r":\s*\[\[CTX;\s*(\d+)\];\s*CodecCorrection::MAX as usize\]\s*,", m.group(1))]
+    if len(flat) == 2 and len(nested) == 2:
+        CTXN = flat + nested
+    else:
+        failures.append("not found: codec context array sizes")
 
 GROUP[0] = "params"
 pe = strip_comments(src("preflate_parameter_estimator.rs"))
@@ -253,9 +262,36 @@ GROUP[0] = "scan"
 sd = strip_comments(src("scan_deflate.rs"))
 MIN_BLOCKSIZE = const_num(sd, "MIN_BLOCKSIZE")
 ZIP_SIG = const_num(sd, "ZIP_LOCAL_FILE_HEADER_SIGNATURE")
+# the signature table: match arms `<pattern> => [Some(]Signature::X[(n)][)]` where the pattern is a hex
+# literal or a named constant; named constants are evaluated (literals, other constants,
+# `u16::from_le_bytes([a, b])`, `u16::from_le_bytes(*b"XY")`). The arms are disjoint, so their textual
+# order is irrelevant: the table is emitted sorted by (kind, level, value) in the order the theorems use.
+def const_eval(text, expr, depth=0):
+    expr = expr.strip()
+    if depth > 8:
+        return None
+    if re.fullmatch(r"0[xX][0-9A-Fa-f_]+|[0-9_]+", expr):
+        return num(expr)
+    mm = re.fullmatch(r"(?:u16|u32)::from_le_bytes\(\s*\[(.+?),(.+?)\]\s*\)", expr, re.S)
+    if mm:
+        a, b = const_eval(text, mm.group(1), depth + 1), const_eval(text, mm.group(2), depth + 1)
+        return None if a is None or b is None else a + 256 * b
+    mm = re.fullmatch(r'(?:u16|u32)::from_le_bytes\(\s*\*b"(..)"\s*\)', expr, re.S)
+    if mm:
+        return ord(mm.group(1)[0]) + 256 * ord(mm.group(1)[1])
+    mm = re.fullmatch(r"[A-Za-z_][A-Za-z0-9_]*", expr)
+    if mm:
+        d = re.search(r"\bconst\s+" + expr + r"\s*:\s*\w+\s*=\s*(.+?);", text, re.S)
+        return const_eval(text, d.group(1), depth + 1) if d else None
+    return None
+
 sigs = []
-for mm in re.finditer(r"(0x[0-9A-Fa-f]{4}) => Signature::(\w+)(?:\((\d+)\))?", sd):
-    sigs.append((num(mm.group(1)), mm.group(2), num(mm.group(3)) if mm.group(3) else 0))
+for mm in re.finditer(r"(0x[0-9A-Fa-f]{4}|[A-Z][A-Z0-9_]*)\s*=>\s*(?:Some\(\s*)?Signature::(\w+)(?:\((\d+)\))?", sd):
+    v = const_eval(sd, mm.group(1))
+    if v is not None:
+        sigs.append((v, mm.group(2), num(mm.group(3)) if mm.group(3) else 0))
+_kind_order = {"Zlib": 0, "ZipLocalFileHeader": 1, "Gzip": 2, "IDAT": 3}
+sigs = sorted(set(sigs), key=lambda t: (_kind_order.get(t[1], 9), t[2], t[0]))
 if not sigs:
     failures.append("scan_deflate: signature table")
 gz = []
